@@ -250,10 +250,10 @@ Proof. unfold all_permit. apply forallb_forall. Qed.
 
 (* --- chains --- *)
 
-Lemma follow_hosts_prefix ps init : forall targets via strip,
-  exists k, map s_host (fst (follow ps init via strip targets)) = firstn k targets /\
-            (snd (follow ps init via strip targets) = Completed -> k = length targets) /\
-            (snd (follow ps init via strip targets) = Refused ->
+Lemma follow_hosts_prefix ps init hs : forall targets via strip,
+  exists k, map s_host (fst (follow ps init hs via strip targets)) = firstn k targets /\
+            (snd (follow ps init hs via strip targets) = Completed -> k = length targets) /\
+            (snd (follow ps init hs via strip targets) = Refused ->
                k < length targets /\
                all_permit ps (nth k targets []) (via ++ firstn k targets) = false).
 Proof.
@@ -262,7 +262,7 @@ Proof.
   - destruct (all_permit ps t via) eqn:Hp.
     + destruct (IH (via ++ [t]) (strip || negb (bytes_eqb init t) && negb (should_copy init t)))
         as [k [H1 [H2 H3]]].
-      destruct (follow ps init (via ++ [t]) _ rest) as [l e] eqn:Ef.
+      destruct (follow ps init hs (via ++ [t]) _ rest) as [l e] eqn:Ef.
       exists (S k). cbn [fst snd map s_host firstn length] in *. rewrite H1. split; [reflexivity|]. split.
       * intros He. now rewrite H2.
       * intros He. destruct (H3 He) as [Hk Hn]. split; [lia|].
@@ -272,14 +272,14 @@ Proof.
 Qed.
 
 (* every request sent after the first was permitted by every policy at the time it was sent *)
-Lemma follow_all_permitted ps init : forall targets via strip k,
-  k < length (fst (follow ps init via strip targets)) ->
+Lemma follow_all_permitted ps init hs : forall targets via strip k,
+  k < length (fst (follow ps init hs via strip targets)) ->
   all_permit ps (nth k targets []) (via ++ firstn k targets) = true.
 Proof.
   induction targets as [|t rest IH]; intros via strip k; cbn [follow].
   - cbn. lia.
   - destruct (all_permit ps t via) eqn:Hp.
-    + destruct (follow ps init (via ++ [t]) _ rest) as [l e] eqn:Ef.
+    + destruct (follow ps init hs (via ++ [t]) _ rest) as [l e] eqn:Ef.
       cbn [fst length]. intros Hk. destruct k as [|k].
       * cbn. now rewrite app_nil_r.
       * cbn [nth firstn].
@@ -289,90 +289,117 @@ Proof.
     + cbn. lia.
 Qed.
 
-Lemma follow_length_via ps init : forall targets via strip,
+Lemma follow_length_via ps init hs : forall targets via strip,
   forall n, In (PMax n) ps ->
-  (Z.of_nat (length via + length (fst (follow ps init via strip targets))) <= Z.max n (Z.of_nat (length via)))%Z.
+  (Z.of_nat (length via + length (fst (follow ps init hs via strip targets))) <= Z.max n (Z.of_nat (length via)))%Z.
 Proof.
   induction targets as [|t rest IH]; intros via strip n Hin; cbn [follow].
   - cbn. lia.
   - destruct (all_permit ps t via) eqn:Hp.
     + specialize (IH (via ++ [t]) (strip || negb (bytes_eqb init t) && negb (should_copy init t)) n Hin).
-      destruct (follow ps init (via ++ [t]) _ rest) as [l e].
+      destruct (follow ps init hs (via ++ [t]) _ rest) as [l e].
       cbn [fst length] in *. rewrite app_length in IH. cbn [length] in IH.
       apply composition_is_conjunction with (p := PMax n) in Hp; [|assumption].
       apply max_redirects_exact in Hp. lia.
     + cbn. lia.
 Qed.
 
-Lemma chain_bounded ps init targets n :
+Lemma chain_bounded ps init hs targets n :
   In (PMax n) ps ->
-  (Z.of_nat (length (fst (run_chain ps init targets))) <= Z.max n 1)%Z.
+  (Z.of_nat (length (fst (run_chain ps init hs targets))) <= Z.max n 1)%Z.
 Proof.
   intros Hin. unfold run_chain.
-  pose proof (follow_length_via ps init targets [init] false n Hin) as H.
-  destruct (follow ps init [init] false targets) as [l e]. cbn [fst length] in *. lia.
+  pose proof (follow_length_via ps init hs targets [init] false n Hin) as H.
+  destruct (follow ps init hs [init] false targets) as [l e]. cbn [fst length] in *. lia.
 Qed.
 
-(* sensitive headers: unless the caller asked for AlwaysCopy of that header, it reaches only
-   hosts net/http's rule allows, and once stripped it never comes back; no header is ever
-   duplicated *)
-Lemma follow_auth ps init : copies_auth ps = false ->
-  forall targets via strip s,
-  In s (fst (follow ps init via strip targets)) -> s_auth s <> 0 ->
-  strip = false /\ (s_host s = init \/ should_copy init (s_host s) = true).
+(* --- headers --- *)
+
+Lemma carry_in ps strip hs n k :
+  In (n, k) (carry ps strip hs) ->
+  exists k0, In (n, k0) hs /\
+    k = if is_sensitive n && strip && negb (mem_bytes n (always_names ps)) then 0 else k0.
 Proof.
-  intros Hac. induction targets as [|t rest IH]; intros via strip s; cbn [follow].
-  - cbn. tauto.
-  - destruct (all_permit ps t via); [|cbn; tauto].
-    destruct (follow ps init (via ++ [t]) (strip || negb (bytes_eqb init t) && negb (should_copy init t)) rest)
-      as [l e] eqn:Ef.
-    cbn [fst]. intros [Hs | Hs] Hsens.
-    + subst s. cbn [s_auth s_host] in *. rewrite Hac, orb_false_r in Hsens.
-      destruct (strip || negb (bytes_eqb init t) && negb (should_copy init t)) eqn:E;
-        [cbn in Hsens; congruence|].
-      apply orb_false_iff in E as [H1 H2]. split; [assumption|].
-      apply andb_false_iff in H2 as [H2|H2]; apply negb_false_iff in H2.
-      * left. apply bytes_eqb_eq in H2. now subst.
-      * now right.
-    + specialize (IH (via ++ [t]) (strip || negb (bytes_eqb init t) && negb (should_copy init t)) s).
-      rewrite Ef in IH. cbn [fst] in IH.
-      destruct (IH Hs Hsens) as [H1 H2]. apply orb_false_iff in H1 as [H1 _]. now split.
+  unfold carry. intros H. apply in_map_iff in H as [[n0 k0] [Heq Hin]]. cbn [fst snd] in Heq.
+  inversion Heq; subst. now exists k0.
 Qed.
 
-Lemma follow_cookie ps init : copies_cookie ps = false ->
-  forall targets via strip s,
-  In s (fst (follow ps init via strip targets)) -> s_cookie s <> 0 ->
-  strip = false /\ (s_host s = init \/ should_copy init (s_host s) = true).
+Lemma carry_keeps ps strip hs n k :
+  is_sensitive n && strip && negb (mem_bytes n (always_names ps)) = false ->
+  In (n, k) hs -> In (n, k) (carry ps strip hs).
 Proof.
-  intros Hac. induction targets as [|t rest IH]; intros via strip s; cbn [follow].
-  - cbn. tauto.
-  - destruct (all_permit ps t via); [|cbn; tauto].
-    destruct (follow ps init (via ++ [t]) (strip || negb (bytes_eqb init t) && negb (should_copy init t)) rest)
-      as [l e] eqn:Ef.
-    cbn [fst]. intros [Hs | Hs] Hsens.
-    + subst s. cbn [s_cookie s_host] in *. rewrite Hac, orb_false_r in Hsens.
-      destruct (strip || negb (bytes_eqb init t) && negb (should_copy init t)) eqn:E;
-        [cbn in Hsens; congruence|].
-      apply orb_false_iff in E as [H1 H2]. split; [assumption|].
-      apply andb_false_iff in H2 as [H2|H2]; apply negb_false_iff in H2.
-      * left. apply bytes_eqb_eq in H2. now subst.
-      * now right.
-    + specialize (IH (via ++ [t]) (strip || negb (bytes_eqb init t) && negb (should_copy init t)) s).
-      rewrite Ef in IH. cbn [fst] in IH.
-      destruct (IH Hs Hsens) as [H1 H2]. apply orb_false_iff in H1 as [H1 _]. now split.
+  intros Hc Hin. unfold carry. apply in_map_iff. exists (n, k). cbn [fst snd]. now rewrite Hc.
 Qed.
 
-Lemma follow_no_duplicates ps init : forall targets via strip s,
-  In s (fst (follow ps init via strip targets)) -> s_auth s <= 1 /\ s_cookie s <= 1.
+(* every request of the chain after the first carries carry ps <its strip flag> hs, and the flag,
+   once set, stays set *)
+Lemma follow_sent_shape ps init hs : forall targets via strip s,
+  In s (fst (follow ps init hs via strip targets)) ->
+  exists strip', s_hdrs s = carry ps strip' hs /\ (strip = true -> strip' = true) /\
+    (strip' = false -> s_host s = init \/ should_copy init (s_host s) = true).
 Proof.
   induction targets as [|t rest IH]; intros via strip s; cbn [follow].
   - cbn. tauto.
   - destruct (all_permit ps t via); [|cbn; tauto].
-    destruct (follow ps init (via ++ [t]) (strip || negb (bytes_eqb init t) && negb (should_copy init t)) rest)
+    destruct (follow ps init hs (via ++ [t]) (strip || negb (bytes_eqb init t) && negb (should_copy init t)) rest)
       as [l e] eqn:Ef.
     cbn [fst]. intros [Hs | Hs].
-    + subst s. cbn [s_auth s_cookie]. unfold b2n.
-      destruct (negb _ || copies_auth ps), (negb _ || copies_cookie ps); lia.
+    + subst s. cbn [s_hdrs s_host].
+      exists (strip || negb (bytes_eqb init t) && negb (should_copy init t)). split; [reflexivity|]. split.
+      * intros ->. reflexivity.
+      * intros E. apply orb_false_iff in E as [_ H2].
+        apply andb_false_iff in H2 as [H2|H2]; apply negb_false_iff in H2.
+        -- left. apply bytes_eqb_eq in H2. now subst.
+        -- now right.
     + specialize (IH (via ++ [t]) (strip || negb (bytes_eqb init t) && negb (should_copy init t)) s).
-      rewrite Ef in IH. now apply IH.
+      rewrite Ef in IH. cbn [fst] in IH. destruct (IH Hs) as [strip' [H1 [H2 H3]]].
+      exists strip'. split; [assumption|]. split; [|assumption].
+      intros ->. apply H2. reflexivity.
 Qed.
+
+(* a sensitive header that no AlwaysCopy policy names reaches only the initial host and hosts
+   net/http's rule allows, and only while the chain has never left them *)
+Lemma follow_sensitive ps init hs n :
+  is_sensitive n = true -> mem_bytes n (always_names ps) = false ->
+  forall targets via strip s k,
+  In s (fst (follow ps init hs via strip targets)) -> In (n, k) (s_hdrs s) -> k <> 0 ->
+  strip = false /\ (s_host s = init \/ should_copy init (s_host s) = true).
+Proof.
+  intros Hsens Hnot targets via strip s k Hs Hin Hk.
+  destruct (follow_sent_shape _ _ _ _ _ _ _ Hs) as [strip' [Hh [Hmono Hhost]]].
+  rewrite Hh in Hin. apply carry_in in Hin as [k0 [_ Hk0]].
+  rewrite Hsens, Hnot in Hk0. cbn [andb negb] in Hk0. rewrite andb_true_r in Hk0.
+  destruct strip' eqn:E; [congruence|]. split; [|now apply Hhost].
+  destruct strip; [|reflexivity]. specialize (Hmono eq_refl). discriminate.
+Qed.
+
+(* nothing is invented or multiplied: a header on a redirected request is one of the first
+   request's, with the same number of values or none *)
+Lemma follow_no_new_headers ps init hs : forall targets via strip s n k,
+  In s (fst (follow ps init hs via strip targets)) -> In (n, k) (s_hdrs s) ->
+  exists k0, In (n, k0) hs /\ (k = k0 \/ k = 0).
+Proof.
+  intros targets via strip s n k Hs Hin.
+  destruct (follow_sent_shape _ _ _ _ _ _ _ Hs) as [strip' [Hh _]].
+  rewrite Hh in Hin. apply carry_in in Hin as [k0 [Hin0 Hk0]]. exists k0. split; [assumption|].
+  destruct (is_sensitive n && strip' && negb (mem_bytes n (always_names ps))); auto.
+Qed.
+
+(* every header that is not sensitive, and every header an AlwaysCopy policy names, travels to
+   every followed hop unchanged *)
+Lemma follow_carried ps init hs n k :
+  is_sensitive n = false \/ mem_bytes n (always_names ps) = true ->
+  In (n, k) hs ->
+  forall targets via strip s,
+  In s (fst (follow ps init hs via strip targets)) -> In (n, k) (s_hdrs s).
+Proof.
+  intros Hor Hin targets via strip s Hs.
+  destruct (follow_sent_shape _ _ _ _ _ _ _ Hs) as [strip' [Hh _]]. rewrite Hh.
+  apply carry_keeps; [|assumption].
+  destruct Hor as [H|H]; rewrite H; cbn [andb negb]; [reflexivity|apply andb_false_r].
+Qed.
+
+(* the sensitive set is net/http's (regenerated from GOROOT/src/net/http/client.go) *)
+Lemma sensitive_set :
+  go_sensitive_headers = [bs "Authorization"; bs "Www-Authenticate"; bs "Cookie"; bs "Cookie2"].
+Proof. reflexivity. Qed.
